@@ -425,23 +425,31 @@ def analyze_batch(recs, exited, lo, hi, main, specs, cfg, classes, textb, nlines
                     add(inst, nxt - 0.4, "hCas=0")
             if joined or not inst.hwon:
                 returned = False
-                for w in inst.waits:
+                recheck = bool(cfg.get("recheck"))
+                for wi, w in enumerate(inst.waits):
+                    last = wi == len(inst.waits) - 1
                     op = (w["args"][1] or 0) & 0x7f
                     if op != 0:
                         problems.append(("model-map", "futex op %d on the join word" % op))
                         continue
-                    add(inst, w["entry"] - 0.2, "hLoad=%d" % w["args"][2])
+                    # a record printed on one line (entry == exit) entered the kernel before that line
+                    add(inst, w["entry"] - 0.3, "hLoad=%d" % w["args"][2])
                     if w["exit"] is None:
-                        add(inst, w["entry"], "hFwait=1")
+                        add(inst, w["entry"] - 0.2, "hFwait=1")
                         inst.hung = "parked"
                         returned = True
                         break
                     if w["err"] is None and w["ret"] == 0:
-                        add(inst, w["entry"], "hFwait=1")
-                        h_need_zero = w["exit"] - 0.3
-                        inst.path = ("join:" if joined else "drop:thread-first:") + "parked"
-                        returned = True
-                        break
+                        add(inst, w["entry"] - 0.2, "hFwait=1")
+                        if last:
+                            h_need_zero = w["exit"] - 0.1      # parked first, then the kernel's clear + wake, then the return
+                            inst.path = ("join:" if joined else "drop:thread-first:") + "parked"
+                            returned = True
+                            break
+                        # the wait returned 0 and the code waited again: a wake that was not the kernel's
+                        add(inst, w["exit"], "hSpur")
+                        inst.spurious = getattr(inst, "spurious", 0) + 1
+                        continue
                     if w["err"] == "EAGAIN":
                         add(inst, w["exit"] - 0.1, "hFwait=0")
                         h_need_zero = w["exit"] - 0.3
@@ -449,15 +457,17 @@ def analyze_batch(recs, exited, lo, hi, main, specs, cfg, classes, textb, nlines
                         returned = True
                         break
                     if w["err"] == "EINTR":
-                        add(inst, w["entry"], "hFwait=1")
+                        add(inst, w["entry"] - 0.2, "hFwait=1")
                         add(inst, w["exit"], "hEintr")
                         continue
                     problems.append(("model-map", "futex wait returned %s" % w["err"]))
-                if not returned and inst.freeline is not None:
+                if inst.freeline is not None and (recheck or not returned) and inst.hung is None:
+                    # the load that ends the wait: `wait_for_exit`'s re-check, or the fast path
                     v = 0 if expect != 0 else 1
                     add(inst, inst.freeline - 0.3, "hLoad=%d" % v)
-                    h_need_zero = inst.freeline - 0.35
-                    inst.path = ("join:" if joined else "drop:thread-first:") + "fast"
+                    h_need_zero = min(h_need_zero, inst.freeline - 0.35) if h_need_zero is not None else inst.freeline - 0.35
+                    if not returned:
+                        inst.path = ("join:" if joined else "drop:thread-first:") + "fast"
                 if inst.freeline is not None:
                     if joined:
                         add(inst, inst.freeline - 0.2, "hReadSlot")
@@ -506,9 +516,9 @@ def model_line(cfg, insts, base):
         for pos, seq, tok in inst.ev:
             evs.append((pos, seq, base + inst.id, tok))
     evs.sort()
-    return "thr %d %d %d %d %d %d %d 1 0 %d %d : %s" % (
+    return "thr %d %d %d %d %d %d %d 1 %d %d %d %d : %s" % (
         cfg["checkClone"], cfg["mmapCleanup"], cfg["initWord"], cfg["joinExpect"], cfg["dropExpect"], cfg["setTidRet"], cfg["setTidPanic"],
-        cfg["dropValH"], cfg["dropValT"],
+        1, cfg["dropValH"], cfg["dropValT"], cfg["recheck"],
         " ; ".join("%d %s" % (i, t) for _, _, i, t in evs)), len(evs)
 
 
@@ -687,7 +697,7 @@ def cfg_of(table):
             "joinExpect": d["joinExpect"] if d["joinExpect"] is not None else 4294967295,
             "dropExpect": d["dropExpect"] if d["dropExpect"] is not None else 4294967295,
             "setTidRet": int(bool(d["setTidRet"])), "setTidPanic": int(bool(d["setTidPanic"])),
-            "dropValH": int(bool(d["dropValH"])), "dropValT": int(bool(d["dropValT"]))}
+            "dropValH": int(bool(d["dropValH"])), "dropValT": int(bool(d["dropValT"])), "recheck": int(bool(d["recheck"]))}
 
 
 def model_verdicts(ctx, items):
@@ -745,8 +755,22 @@ def sig_of(kind):
     return {"kind": kind}
 
 
+def trace_excerpt(it):
+    """for a history the model rejects: the strace lines of the instance concerned"""
+    m = re.search(r"inst=(\d+)", it.get("model", ""))
+    if not m or "trace" not in it or int(m.group(1)) not in it.get("insts", {}):
+        return None
+    inst = it["insts"][int(m.group(1))]
+    keys = [hex(inst.tsm[0]), hex(inst.tsm[0] + 4)] if inst.tsm else []
+    out = []
+    for i, l in enumerate(it["trace"]):
+        if any(k in l for k in keys) or (inst.tid is not None and l.split()[:1] == [str(inst.tid)] and ("exit" in l or "munmap" in l or "set_tid" in l)):
+            out.append("%d: %s" % (i, l))
+    return {"events": sorted(inst.ev), "lines": out[-80:]}
+
+
 def replay_of(it, script, exe, inject=None):
-    return {"batch": it["bno"], "specs": it["specs"], "script": script, "inject": inject,
+    return {"trace_excerpt": trace_excerpt(it) if it.get("model", "").startswith("reject") else None,"batch": it["bno"], "specs": it["specs"], "script": script, "inject": inject,
             "how_to_replay": "printf %r | strace -f -e raw=all -e trace=%s %s%s" % (script, TRACE, ("-e inject=%s " % inject) if inject else "", exe),
             "judge": it.get("judge"), "model": it.get("model"), "model_input": it.get("line", "")[:6000]}
 
@@ -769,6 +793,7 @@ def run_scenarios(ctx, exe, cfg, nproc, batches_per_proc, nmax, label):
         for bs, script, run, res, classes, err in ex.map(work, jobs):
             for it in res:
                 it["script"], it["timed_out"], it["label"] = script, run["timed_out"], label
+                it["trace"] = run["trace"]
                 items.append(it)
             if err:
                 ctx.violation({"kind": "probe-died"}, {"script": script, "status": run["status"], "stderr": run["stderr"]})
@@ -853,6 +878,12 @@ def run_faults(ctx, exe, cfg, nscripts, nthreads):
         for k in cl:
             jobs.append((specs, script, "clone:error=EAGAIN:when=%d" % k))
 
+    # a FUTEX_WAIT made to return 0 although nobody woke the word (the futex contract allows it): join's first wait
+    for k in range(max(2, nscripts // 3)):
+        specs = [{"id": r.below(64), "panic": r.chance(1, 4), "d": r.choice([60000, 120000]), "class": r.choice([0, 1, 2, 3, 4]),
+                  "action": r.choice(["join", "join", "drop"]), "d2": r.choice([0, 1000])}]
+        jobs.append((specs, script_of([specs]), "futex:retval=0:when=1"))
+
     def work(job):
         specs, script, inj = job
         run = run_probe(exe, script, inject=inj, timeout=watchdog_of([specs]))
@@ -862,8 +893,9 @@ def run_faults(ctx, exe, cfg, nscripts, nthreads):
         for (specs, script, inj), run, res in ex.map(work, jobs):
             for it in res:
                 it["script"], it["timed_out"], it["label"], it["inject"] = script, run["timed_out"], "fault", inj
+                it["trace"] = run["trace"]
                 if not it.get("missing"):
-                    nf = sum(1 for i in it["insts"].values() if i.mmap_fail or i.clone_fail)
+                    nf = sum(1 for i in it["insts"].values() if i.mmap_fail or i.clone_fail or getattr(i, "spurious", 0))
                     ctx.hist("fault_runs", inj.split(":")[0] + (":hit" if nf else ":missed"))
                 items.append(it)
     return items
@@ -871,8 +903,7 @@ def run_faults(ctx, exe, cfg, nscripts, nthreads):
 
 ASSUMPTIONS = [
     "kernel: at thread exit, if the clear-tid address is non-null, the kernel writes 0 to it and FUTEX_WAKEs it (CLONE_CHILD_CLEARTID); this happens after everything the thread did and is the synchronisation join/drop rely on (exercised on every probe run, not proved)",
-    "FUTEX_WAIT compares and enqueues atomically; it returns 0 only after a wake on that word and nothing but the kernel's clear-tid wake targets a thread's futex word (futex_wait_fast returns on Ok(()) without re-reading: theorem spurious_wake_breaks_join shows the model failing without this)",
-    "a plain load(Relaxed) that observes the kernel's 0 is ordered before the following slot read / free (x86-64 TSO; on the futex-syscall paths it holds anyway). The language-level memory model does not grant it: theorem relaxed_fast_path_needs_hw_ordering; an Acquire fence after futex_wait_fast in join/drop would remove the assumption (recorded as an observation, not repaired: not observable on x86-64)",
+    "FUTEX_WAIT compares and enqueues atomically and may return 0 spuriously (allowed by the model: spurious = true); the kernel's clear-tid write is treated as a release of everything the exited thread did, observed by the Acquire re-check load of wait_for_exit / by the futex system call",
     "flag CAS = atomic RMW reading the latest value (exactly one winner); its AcqRel/Relaxed orderings are pinned from the source but the proofs do not need them (the freed block is protected by the kernel-exit edge and by set_tid_address(0))",
     "strace -f reports causally ordered events of different threads in causal order (each ptrace stop is processed before the tracee continues); invisible steps (loads, the two CASes, the kernel's clear) are placed inside their observation windows by the stated rules before the model replays the history",
     "the `__clone` trampoline, the stack-unmap epilogue asm and `_start` are single modelled steps observed through strace, not verified",
